@@ -265,6 +265,7 @@ type Frame struct {
 	results []string
 	shared  map[string]bool // constructor kinds: locals of this function that a closure assigns (shared cells)
 	pkg     *Pkg
+	body    *ast.BlockStmt // the function body this frame runs (nil for the root)
 }
 
 type Ctl struct {
@@ -278,6 +279,7 @@ type State struct {
 	ctl        []Ctl
 	onceR      map[string]bool // sync.Once objects known to have completed on this path (modelled as a shared hold)
 	insideOnce string
+	published  string // inside `if <atomic>.CompareAndSwap(x, x) { ... }`: reads of captured cells are published by that atomic
 	inst       string // suffix of the receiver instance ("" or "'")
 	peer       string
 }
@@ -286,7 +288,7 @@ type K func(st *State) Code
 type KV func(st *State, v Val) Code
 
 func (st *State) copy() *State {
-	n := &State{insideOnce: st.insideOnce, inst: st.inst, peer: st.peer}
+	n := &State{insideOnce: st.insideOnce, published: st.published, inst: st.inst, peer: st.peer}
 	n.frames = make([]*Frame, len(st.frames))
 	for i, f := range st.frames {
 		g := *f
@@ -404,7 +406,7 @@ func (st *State) fingerprint() string {
 		keys = append(keys, k)
 	}
 	sort.Strings(keys)
-	sb.WriteString("once:" + strings.Join(keys, ",") + ":" + st.insideOnce)
+	sb.WriteString("once:" + strings.Join(keys, ",") + ":" + st.insideOnce + ":" + st.published)
 	fmt.Fprintf(&sb, "ctl%d", len(st.ctl))
 	return sb.String()
 }
